@@ -243,6 +243,10 @@ func (c *checker) takeFields(url string, base sdk.Msg) []takeField {
 		// named resources of the victims that are plain text: job ids
 		"text": {"ujob1"},
 	}
+	var ids []string
+	for _, n := range []uint64{e.msgSigned, e.msgErr, e.pendingTx, e.contractID} {
+		ids = append(ids, strconv.FormatUint(n, 10))
+	}
 	var out []takeField
 	walkScalars(reflect.ValueOf(base), "", func(p string, v reflect.Value) {
 		if strings.HasPrefix(p, "Metadata.") {
@@ -255,8 +259,15 @@ func (c *checker) takeFields(url string, base sdk.Msg) []takeField {
 		}
 		var vals []string
 		if v.Kind() != reflect.String {
-			if vv != own {
-				vals = []string{vv}
+			// numeric ids: the victim template's value and the ids of resources the
+			// victims hold (queued messages carrying B's delivery / error report, U's
+			// pooled transfer and user contract)
+			seen := map[string]bool{own: true}
+			for _, n := range append([]string{vv}, ids...) {
+				if !seen[n] {
+					seen[n] = true
+					vals = append(vals, n)
+				}
 			}
 		} else {
 			cands := []string{vv}
@@ -289,14 +300,27 @@ func (c *checker) takeover(routable []string, deadline time.Time) {
 	baseOK := 0
 	cases := 0
 	fieldReport := map[string][]string{}
+	type job struct{ url, attacker string }
+	var jobs []job
 	for _, url := range routable {
-		proto := caseSpec{Type: url, Variant: "take", Attacker: c.takeAttacker(url)}
+		jobs = append(jobs, job{url, c.takeAttacker(url)})
+		if c.takeAttacker(url) == "V" {
+			// validator-scoped messages also from the plain account (its own message is
+			// refused as it stands; what matters is that no spelling gets through)
+			jobs = append(jobs, job{url, ""})
+		}
+	}
+	for _, j := range jobs {
+		url := j.url
+		proto := caseSpec{Type: url, Variant: "take", Attacker: j.attacker}
 		// the attacker's own message must be acceptable as it stands (non-vacuity)
 		bo := c.deliver(proto)
 		c.countOutcome(proto, bo)
 		if bo.Res.OK() {
-			baseOK++
-		} else {
+			if j.attacker == c.takeAttacker(url) {
+				baseOK++
+			}
+		} else if j.attacker == c.takeAttacker(url) {
 			baseRejected = append(baseRejected, shortType(url)+": "+errClass(bo.Res))
 		}
 		if len(bo.Viol) > 0 {
@@ -313,7 +337,9 @@ func (c *checker) takeover(routable []string, deadline time.Time) {
 			c.r.Violate("takeover:"+shortType(url)+":-", c.describe(later, lo), later)
 		}
 		for _, f := range c.takeFields(url, c.takeBase(proto)) {
-			fieldReport[shortType(url)] = append(fieldReport[shortType(url)], fmt.Sprintf("%s(%d)", f.Path, len(f.Values)))
+			if j.attacker == c.takeAttacker(url) {
+				fieldReport[shortType(url)] = append(fieldReport[shortType(url)], fmt.Sprintf("%s(%d)", f.Path, len(f.Values)))
+			}
 			for _, val := range f.Values {
 				if time.Now().After(deadline) {
 					r.Cap("deadline")
